@@ -58,10 +58,11 @@ PROPS = {
         "explanation": "integer/float/char/bool/unit/option conversions at the host boundary, full input domain",
     },
     "C15": {
-        "units": ["genv", "roots", "intr"],
+        "units": ["genv", "stw", "roots", "intr"],
         "trusted_base": COMMON_TB + [
             "units/genv/prelude.rs: the global table as a 4-slot table that logs its updates (contract of SharedVectorWrapper proved in unit env), Env::{drain_env, default_env, update_env} and Synchronizer::{stop_threads, resume_threads, call_per_ctx} as ghost recorders over two other thread contexts, enter_safepoint runs its closure once",
             "units/roots/prelude_mark.rs (see C04): Synchronizer::{stop_threads, enumerate_stacks, resume_threads} and the marker as ghost recorders",
+            "units/stw/prelude.rs: AtomicCell as a plain cell, the mutex around the thread list as a cell, thread handles as custom values with a downcast, Thread::unpark as a ghost counter; ThreadState / ThreadStateController extracted verbatim",
             "units/intr/prelude.rs (see C17): AtomicCell as a plain cell, std::thread::park shadowed by a ghost stub",
         ],
         "assumptions": [
